@@ -3,7 +3,11 @@ use super::indexes::{AssetIndex, PolicyIndex, UtxoIndex};
 use super::witnesses_calculator::WitnessesCalculator;
 use crate::serialization::map_names::TxBodyNames;
 use crate::*;
+#[cfg(not(feature = "verif-hooks"))]
 use std::collections::{HashMap, HashSet};
+#[cfg(feature = "verif-hooks")]
+#[allow(unused_imports)]
+use crate::verif_hooks::{HashMap, HashSet, SimNew};
 
 #[derive(Clone)]
 pub(crate) struct TxOutputProposal {
